@@ -231,6 +231,25 @@ def run(ctx: Ctx) -> Outcome:
         ann = uenv.annotation(T)
         events.append(observe(ann, uenv, [("memoised", ann)]))
         meta.append({"T": T})
+    # late definitions: a class is first walked while one of its field types does not exist yet; once the
+    # module is complete, the graph of every root containing the class must be complete as well
+    import sys, types as pytypes
+    from typelib import graph
+    for shape, expr in (("direct", "Child"), ("opt", "typing.Optional[Child]"), ("list", "list[Child]"), ("dict", "dict[str, Child]")):
+        name = f"verif_late_{shape}"
+        mod = pytypes.ModuleType(name)
+        sys.modules[name] = mod
+        exec(compile("import dataclasses, decimal, typing\n@dataclasses.dataclass\nclass Parent:\n    n: int\n"
+                     f"    child: {expr!r}\n", name, "exec", dont_inherit=True), mod.__dict__)
+        try:
+            with_deadline(2, graph.static_order, list[mod.Parent])       # Child is not defined yet
+        except BaseException:
+            pass
+        exec(compile("@dataclasses.dataclass\nclass Child:\n    v: decimal.Decimal\n    back: 'typing.Optional[Parent]' = None\n",
+                     name, "exec", dont_inherit=True), mod.__dict__)
+        for rname, root in (("Parent", mod.Parent), ("dict[str,Parent]", dict[str, mod.Parent]), ("Child", mod.Child)):
+            events.append(observe(root, None, [("memoised", root)]))
+            meta.append({"late": shape, "root": rname})
     slim = [{kk: e[kk] for kk in ("nodes", "root", "rootu", "members", "salias", "equiv", "raised")} for e in events]
     tres, rejects = tlc.validate_trace("Graph_Trace", "Graph_Trace.cfg", slim, timeout=7200)
     viol = []
@@ -238,7 +257,7 @@ def run(ctx: Ctx) -> Outcome:
         e, m = events[r["rej"] - 1], meta[r["rej"] - 1]
         kinds = sorted({ft[0] for fs in m.get("topo", []) for ft in fs})
         viol.append(Violation(clause="Graph." + r["clause"], case=m,
-                              fields={"raised": e["raised"], "source": "topology" if "topo" in m else "universe",
+                              fields={"raised": e["raised"], "source": "topology" if "topo" in m else "late_definition" if "late" in m else "universe",
                                       "kinds": kinds, "failed_variants": [x["how"] for x in e["equiv"] if not x["same"]]},
                               msg=f"{json.dumps(m)[:200]} nodes={json.dumps(e['nodes'])[:300]} equiv={e['equiv']}"))
     # impl drift: node counts of the model vs the real graph (spec -> code)
@@ -253,7 +272,8 @@ def run(ctx: Ctx) -> Outcome:
            "distinct_nontrivial": len(nontrivial), "topology_cases": len(cases), "universe_roots": len(types),
            "rule": "model: every topology over 2 classes x <=2 fields x edge kinds x every root (thorough: all 5 kinds, plus 3 classes x 1 "
                    "field), BFS + cut rule, invariants for every linear extension; real: TLC-emitted (topology, root) cases materialised as "
-                   "dataclass/NamedTuple/slots/plain classes in one or two modules, plus every type of the value universe, static_order() "
+                   "dataclass/NamedTuple/slots/plain classes in one or two modules, plus every type of the value universe, plus classes first walked "
+                   "before a field type was defined and walked again afterwards through other roots, static_order() "
                    "projected to opaque ids with stdlib-derived member facts; non-trivial = a deferred node occurs",
            "samples": [slim[0], slim[len(slim) // 2]]}
     return Outcome(level="model_checking", coverage=cov, violations=viol, impl_drift=drift,
@@ -269,6 +289,8 @@ def replay(ctx: Ctx, rep: dict) -> Outcome:
         env.build(None, "m1")
         ann = env.annotation(field_type(m["root"]))
         variants = root_variants(env, ann, env.modules["m1"], 1)
+    elif "late" in m:
+        return run(ctx)
     else:
         defs, types, _ = vs.universe("quick")
         env = vs.make_env(defs)
